@@ -30,6 +30,7 @@ Oracles
               covered by the control-program oracle, where they are created at the same time in both.
 """
 import json
+import math
 import os
 import random
 import re
@@ -138,6 +139,24 @@ def build_catalogue():
     # vj: rmsd (self fit inside the component)
     V["vj"] = dict(text=_var("vj", "  rmsd {\n" + _grp("atoms", [19, 20, 21, 22]) + "    refPositions %s\n  }\n" % _refpos([19, 20, 21, 22], 3), 0, 6, 0.25),
                    atoms=[19, 20, 21, 22], tf=True)
+    # vp: position along a path of three Cartesian frames (component holding one copy of its group per frame); the frame files are
+    # whole-system XYZ files written next to the other scratch data (same content at every import)
+    s_ = system()
+    fdir = os.path.join(common.VERIF, "work", "c13_static")
+    os.makedirs(fdir, exist_ok=True)
+    rngp = random.Random(77)
+    lines = ""
+    for k in range(3):
+        P = [[x + (k - 1) * 0.6 * math.sin(1.0 + a + d) + rngp.uniform(-0.05, 0.05) for d, x in enumerate(p)] for a, p in enumerate(s_["pos"])]
+        txt = "%d\nframe %d\n" % (len(P), k + 1) + "".join("C %s %s %s\n" % tuple(fnum(x) for x in p) for p in P)
+        fn = os.path.join(fdir, "vp_frame%d.xyz" % (k + 1))
+        tmp = fn + ".%d.tmp" % os.getpid()
+        with open(tmp, "w") as f:
+            f.write(txt)
+        os.replace(tmp, fn)
+        lines += "    refPositionsFile%d %s\n" % (k + 1, fn)
+    V["vp"] = dict(text=_var("vp", "  gspath {\n" + _grp("atoms", [3, 5, 8, 11, 23]) + lines + "  }\n", -1, 2, 0.05),
+                   atoms=[3, 5, 8, 11, 23], tf=False)
     for n, v in V.items():
         v.setdefault("scalar", True)
         v.setdefault("periodic", False)
@@ -152,7 +171,7 @@ VARS = build_catalogue()
 
 # centre of a restraint for each variable (inside the range visited)
 CENTER = {"vk": "5.0", "va": "3.0", "vb": "80.0", "vc": "20.0", "vd": "4.0", "ve": "0.5", "vf": "3.5", "vg": "2.5",
-          "vh": "(1.0, 0.0, 0.0, 0.0)", "vi": "12.0", "vj": "1.5"}
+          "vh": "(1.0, 0.0, 0.0, 0.0)", "vi": "12.0", "vj": "1.5", "vp": "0.5"}
 
 # bias kinds: keyword, number of variables, memoryless?, needs (predicate on the variable dict), body
 MEMORYLESS = ("harmonic", "walls", "linear")
